@@ -22,6 +22,17 @@ def gen_val(rng, for_attr):
         return "L" + ",".join(hx(rand_string(rng)) for _ in range(rng.randint(0, 4)))
     n = rng.randint(0, 8)
     keys = []
+    if rng.random() < 0.3:
+        # related names: equal up to letter case, a prefix / extension of one another, differing in a trailing blank -
+        # the entries an order that is not the plain byte order (or a comparison that is not total) would confuse
+        base = rng.choice(["disabled", "data-mode", "Id", "a", "class", "x-y", "aria-Label", "é"])
+        pool = sorted({base, base.upper(), base.lower(), base.capitalize(), base.swapcase(), base.title(), base + "x", base[:-1] or "b",
+                       base + " ", " " + base, base + "-", base.replace("-", "_")})
+        rng.shuffle(pool)
+        keys = pool[:min(n, len(pool))]
+        if k == "M":
+            vals = ["on", "ON", "On", "1", "", "a b"]
+            return "M" + ",".join("%s:%s" % (hx(x), hx(rng.choice(vals[:3]) if rng.random() < 0.7 else rng.choice(vals))) for x in keys)
     while len(keys) < n:
         s = rand_string(rng)
         if s not in keys:
@@ -146,6 +157,8 @@ CORPUS = [
     "classlist S223e3c7363726970743e",                       # F03: escaped
     "attrlist M61:~,62:63",                                  # F31: empty value omitted
     "attrlist M61:31,62:32 B63:1,64:0",
+    "attrlist B44697361626c6564:1,64697361626c6564:1",        # seeded C19-m3: names equal up to case must still come in byte order
+    "attrlist M446174612d4d6f6465:6f6e,646174612d6d6f6465:4f4e B6964:1",
     "attrlist S61", "classlist M61:62", "classlist O0", "attrlist O1 M61:62",
     "objid 31 75736572 70", "objid 223e - ", "objid - 63", "objclass 31 63 70 71", "objclass 31 -",
 ]
@@ -157,7 +170,7 @@ def run(chk):
     n = 3000 if chk.tier == "quick" else 60000
     chk.rule = ("argument lists for BuildClassList / BuildAttributeList / ObjectID / ObjectClass generated from one PRNG "
                 "(0-4 arguments; strings over HTML metacharacters, quotes, backslash, controls, multi-byte runes, marker look-alikes; "
-                "maps of 0-8 entries; nil-like empties; unsupported types); each call repeated 24x to sample map order; "
+                "maps of 0-8 entries, 30% of them with related names (equal up to letter case, prefixes / extensions, trailing blanks) and case-equal values; nil-like empties; unsupported types); each call repeated 24x to sample map order; "
                 "non-trivial = at least one non-empty argument; distinct by case text")
     cases = CORPUS + gen_cases(chk.rng, n)
     if br.go_ok and br.coq_ok:
